@@ -34,7 +34,9 @@ def run(ctx):
             dep_pool.submit(ctx.dependency, "C11", "the configuration handed to the file manager is what is on disk afterwards"),
             dep_pool.submit(ctx.dependency, "C12", "histories with failing applies: the result the handler remembers is the truth "
                             "about the last apply, so the statuses last issued are those of a fresh controller"),
-            dep_pool.submit(ctx.dependency, "C07", "the statuses last issued tell the truth about the configuration last applied")]
+            dep_pool.submit(ctx.dependency, "C07", "the statuses last issued tell the truth about the configuration last applied"),
+            dep_pool.submit(ctx.dependency, "C13", "endpoint changes applied through the NGINX Plus API leave NGINX with the servers "
+                            "a fresh controller's reload would produce")]
     ctx.obligations("NGF.Props.C01")
     for mod in EXTRA_PROPS:
         ctx.obligations(mod)
